@@ -69,6 +69,7 @@ REVERT_EXPECT: Dict[str, List[Tuple[str, str]]] = {
     "8c999d6": [("C06", "K9.identity-term")],
     "e7ccf88": [("C07", "K8.update-equals-rebuild")],
     "e8e6afc": [("C07", "K8.term-order")],
+    "701d027": [("C16", "K9.multiform-semantics")],
     "73885a1": [("C16", "K9.multiform-semantics")],
     "4206294": [("C16", "K6.plain-operand")],
     "d6e6973": [("C03", "K9.hcb-chain"), ("C03", "K9.hcb-table"), ("C08", "K9.hcb-symmetry-operators")],
